@@ -122,6 +122,7 @@ func c13R1(a *A, cd *codec) {
 		a.exhaustive = true
 	}
 	a.Extra["string_specialisations"] = n
+	a.Extra["distinct_cases"] = n
 }
 
 func c13R2(a *A, cd *codec) {
